@@ -18,13 +18,13 @@ RULE = (
     'with the first one satisfying include and predicate and not exclude, else TimeoutError at registration+timeout; a '
     'candidate whose processing interval contains the registration, the deadline or the cancellation instant is '
     'ambiguous (both outcomes accepted). Also: handler registry size == baseline + pending expects after every outcome, '
-    'ordinary handlers unaffected. Non-trivial = an expect resolved with >= 2 candidate events of its type processed '
+    'ordinary handlers unaffected and no value left on other code\'s events (one event type declares a result type). Non-trivial = an expect resolved with >= 2 candidate events of its type processed '
     'while it was pending, or >= 2 expects pending at once; distinct by canonical JSON.'
 )
 ASSUMPTIONS = ['virtual time; deadlines off-grid so they never coincide with handler boundaries']
 
 
-class EA(BaseEvent):
+class EA(BaseEvent[str]):  # typed: the ordinary handler returns 'ok'
     n: int = 0
     tag: int = -1
 
@@ -294,6 +294,13 @@ def run_case(c):
             sig = e.event_completed_signal
             if not (sig and sig.is_set()):
                 viol.append(('C18.e', f'event tag {e.tag} did not complete'))
+                break
+            # a pending expect() is a passive observer: whatever it registered must leave no value on other code's events (a filter
+            # that raises is recorded as that temporary handler's error - existing, accepted behaviour)
+            extra = [r for r in e.event_results.values() if not r.handler_name.endswith(('slow', 'probe', 'last'))]
+            bad = [(r.handler_name.split('.')[-1], r.status, repr(r.result)[:40], type(r.error).__name__ if r.error else None) for r in extra if not ((r.status == 'completed' and r.result is None) or (r.status == 'error' and isinstance(r.error, ZeroDivisionError)))]
+            if bad:
+                viol.append(('C18.e', f'event tag {e.tag} ({type(e).__name__}) carries results left behind by expect(): {bad}'))
                 break
 
     try:
